@@ -248,3 +248,705 @@ Proof.
   intros d r size H. unfold after_reservation. apply zassoc_key_Some in H. destruct H as [q Hq]. rewrite Hq.
   eexists. reflexivity.
 Qed.
+
+Lemma zassoc_key_Some_c : forall {A} c (l : list (chip * A)), In c (map fst l) -> exists v, cassoc c l = Some v.
+Proof.
+  intros A c l H. destruct (cassoc c l) eqn:E; [eexists; reflexivity|]. apply cassoc_None in E. contradiction.
+Qed.
+
+Lemma apply_reserve_extra : forall m r size loc m',
+  NoDup (map fst (pm_exc m)) ->
+  apply_reserve m r size loc = Ok m' ->
+  (match loc with
+   | None => after_reservation (pm_res m) r size = Some (pm_res m')
+   | Some _ => pm_res m' = pm_res m
+   end)
+  /\ (forall c d', cassoc c (pm_exc m') = Some d' -> map fst d' = map fst (chip_res m c)).
+Proof.
+  intros m r size loc m' Hnd H. unfold apply_reserve in H. destruct loc as [c0|].
+  - destruct (negb (live m c0)); [discriminate|].
+    destruct (after_reservation (chip_res m c0) r size) as [d'|] eqn:Ea; [|discriminate].
+    destruct (mset m c0 d') as [m1|] eqn:Es; [|discriminate].
+    destruct (overallocated (chip_res m1 c0)); [discriminate|]. inversion H. subst m1. clear H.
+    apply mset_spec in Es. destruct Es as [_ [Hres [_ [Hexc _]]]]. split; [exact Hres|].
+    intros c d1 Hc. rewrite Hexc, cassoc_cupdate in Hc. destruct (chip_eqb c c0) eqn:E.
+    + apply chip_eqb_eq in E. subst c. inversion Hc. subst d1.
+      apply after_reservation_spec in Ea. destruct Ea as [Hk _]. exact Hk.
+    + unfold chip_res. rewrite Hc. reflexivity.
+  - destruct (after_reservation (pm_res m) r size) as [d'|] eqn:Ea; [|discriminate].
+    destruct (overallocated d'); [discriminate|].
+    destruct (reserve_exceptions_spec (pm_exc (with_res m d')) (with_res m d') r size m' Hnd H)
+      as [_ [Hres [_ [Hother Hin]]]].
+    split; [rewrite Hres; reflexivity|].
+    intros c d1 Hc. destruct (in_dec chip_eq_dec c (map fst (pm_exc m))) as [Hi | Hn].
+    + destruct (Hin c Hi) as [d0 [d0' [G1 [G2 [G3 _]]]]]. change (pm_exc (with_res m d')) with (pm_exc m) in G1.
+      rewrite G3 in Hc. inversion Hc. subst d1. unfold chip_res. rewrite G1.
+      apply after_reservation_spec in G2. destruct G2 as [Hk _]. exact Hk.
+    + rewrite (Hother c Hn) in Hc. change (pm_exc (with_res m d')) with (pm_exc m) in Hc.
+      apply cassoc_None in Hn. congruence.
+Qed.
+
+Lemma InvEq_reserve : forall vr m0 done m pl r s e loc m',
+  InvEq vr m0 done m pl ->
+  apply_reserve m r (e - s) loc = Ok m' ->
+  InvEq vr m0 (done ++ [PCReserve r s e loc]) m' pl.
+Proof.
+  intros vr m0 done m pl r s e loc m' Hinv H.
+  pose proof (fun c r => chip_res_known vr m0 done m pl c r Hinv) as Hknown.
+  destruct Hinv as [Hfr Hk Heq Hrk Hre Hnd Hek].
+  destruct (apply_reserve_spec m r (e - s) loc m' Hnd H) as [Hfr' [Hnd' Heff]].
+  destruct (apply_reserve_extra m r (e - s) loc m' Hnd H) as [Hres Hexc].
+  assert (Hlive : forall c, live m0 c = true -> live m c = true).
+  { intros c Hl. rewrite (live_frame m0 m c Hfr). exact Hl. }
+  constructor.
+  - eapply same_frame_trans; eassumption.
+  - intros c Hl. specialize (Heff c (Hlive c Hl)).
+    destruct (match loc with None => true | Some c' => chip_eqb c c' end).
+    + destruct Heff as [d' [Ha [Hc _]]]. apply after_reservation_spec in Ha.
+      destruct Ha as [Hkeys _]. rewrite Hc, Hkeys. apply Hk. exact Hl.
+    + rewrite Heff. apply Hk. exact Hl.
+  - intros c r' Hl Hr. specialize (Heff c (Hlive c Hl)). specialize (Heq c r' Hl Hr).
+    rewrite reserved_app. cbn [reserved]. unfold reserve_applies.
+    destruct (match loc with None => true | Some c' => chip_eqb c c' end) eqn:Eloc.
+    + destruct Heff as [d' [Ha [Hc _]]]. apply after_reservation_spec in Ha.
+      destruct Ha as [_ [_ [Hr1 Hr2]]]. rewrite Hc.
+      destruct (r' =? r) eqn:Er.
+      * apply Z.eqb_eq in Er. subst r'. rewrite Hr1. cbn [andb]. lia.
+      * apply Z.eqb_neq in Er. rewrite (Hr2 r' Er). cbn [andb]. lia.
+    + rewrite Heff. rewrite andb_false_r. lia.
+  - destruct loc as [c0|].
+    + rewrite Hres. exact Hrk.
+    + apply after_reservation_spec in Hres. destruct Hres as [Hkeys _]. rewrite Hkeys. exact Hrk.
+  - intros r' Hr. rewrite greserved_app. cbn [greserved]. specialize (Hre r' Hr). destruct loc as [c0|].
+    + rewrite Hres. lia.
+    + apply after_reservation_spec in Hres. destruct Hres as [_ [_ [Hr1 Hr2]]].
+      destruct (r' =? r) eqn:Er.
+      * apply Z.eqb_eq in Er. subst r'. rewrite Hr1. lia.
+      * apply Z.eqb_neq in Er. rewrite (Hr2 r' Er). lia.
+  - exact Hnd'.
+  - intros c d' r' Hc Hkn. rewrite (Hexc c d' Hc). apply Hknown. exact Hkn.
+Qed.
+
+Lemma apply_reserve_ok : forall m r size loc,
+  NoDup (map fst (pm_exc m)) ->
+  (match loc with
+   | None => (exists d', after_reservation (pm_res m) r size = Some d' /\ overallocated d' = false)
+             /\ (forall c, In c (map fst (pm_exc m)) ->
+                   exists d d1, cassoc c (pm_exc m) = Some d /\ after_reservation d r size = Some d1
+                                /\ (live m c = true -> overallocated d1 = false))
+   | Some c => live m c = true
+               /\ exists d', after_reservation (chip_res m c) r size = Some d' /\ overallocated d' = false
+   end) ->
+  exists m', apply_reserve m r size loc = Ok m'.
+Proof.
+  intros m r size loc Hnd H. unfold apply_reserve. destruct loc as [c|].
+  - destruct H as [Hl [d' [Ha Ho]]]. rewrite Hl, Ha. cbn [negb].
+    destruct (mset_live m c d' Hl) as [m1 Hs]. rewrite Hs.
+    pose proof (mset_spec _ _ _ _ Hs) as [_ [_ [_ [_ Hcr]]]]. rewrite Hcr, chip_eqb_refl, Ho.
+    exists m1. reflexivity.
+  - destruct H as [[d' [Ha Ho]] Hexc]. rewrite Ha, Ho.
+    apply reserve_exceptions_ok; [exact Hnd | exact Hexc].
+Qed.
+
+(* ---------------------------------------------------------------------------------------------- *)
+(* The constraint loop cannot fail under the premise                                                *)
+(* ---------------------------------------------------------------------------------------------- *)
+Lemma rget_other_zero : forall vr m cs r0 v d r,
+  unit_premise vr m cs r0 -> In (v, d) vr -> r <> r0 -> rget r d = 0.
+Proof.
+  intros vr m cs r0 v d r U Hin Hne. unfold rget. destruct (zassoc r d) as [q|] eqn:E; [|reflexivity].
+  apply zassoc_In in E. destruct (up_unit _ _ _ _ U v d r q Hin E) as [[H _] | H]; [contradiction | exact H].
+Qed.
+
+Lemma rget_unit : forall vr m cs r0 v d,
+  unit_premise vr m cs r0 -> In (v, d) vr -> rget r0 d = 0 \/ rget r0 d = 1.
+Proof.
+  intros vr m cs r0 v d U Hin. unfold rget. destruct (zassoc r0 d) as [q|] eqn:E; [|left; reflexivity].
+  apply zassoc_In in E. destruct (up_unit _ _ _ _ U v d r0 q Hin E) as [[_ H] | H]; [exact H | left; exact H].
+Qed.
+
+Lemma existsb_is_location : forall v c cs, existsb (is_location v c) cs = true <-> In (PCLocation v c) cs.
+Proof.
+  intros v c cs. rewrite existsb_exists. split.
+  - intros [k [Hk Hl]]. destruct k as [v' c' | | |]; try discriminate. cbn [is_location] in Hl.
+    apply andb_true_iff in Hl. destruct Hl as [H1 H2]. apply Z.eqb_eq in H1. apply chip_eqb_eq in H2. subst. exact Hk.
+  - intros H. exists (PCLocation v c). split; [exact H|]. cbn [is_location]. rewrite Z.eqb_refl, chip_eqb_refl. reflexivity.
+Qed.
+
+Lemma load_le_located : forall (vr : vresources) cs pl c r,
+  (forall v d r' q, In (v, d) vr -> In (r', q) d -> 0 <= q) ->
+  (forall v l, zassoc v pl = Some l -> In (PCLocation v l) cs) ->
+  load vr pl c r <= located vr cs c r.
+Proof.
+  intros vr cs pl c r Hnn Hfrom. unfold load, located. apply (sumf_le _ _ vr). intros [v d] Hin. cbn [fst snd].
+  assert (0 <= rget r d).
+  { apply rget_nonneg_of_entries. intros r' q Hq. apply (Hnn v d r' q Hin Hq). }
+  destruct (on_chip pl v c) eqn:Eo.
+  - apply on_chip_true in Eo. apply Hfrom in Eo. apply existsb_is_location in Eo. rewrite Eo. lia.
+  - destruct (existsb (is_location v c) cs); lia.
+Qed.
+
+Lemma located_other_zero : forall vr m cs r0 c r, unit_premise vr m cs r0 -> r <> r0 -> located vr cs c r = 0.
+Proof.
+  intros vr m cs r0 c r U Hne. unfold located. apply (sumf_zero _ vr). intros [v d] Hin. cbn [fst snd].
+  rewrite (rget_other_zero vr m cs r0 v d r U Hin Hne). destruct (existsb (is_location v c) cs); reflexivity.
+Qed.
+
+(* what is left on a working chip can never be negative while the constraints are being processed *)
+Lemma room : forall vr m0 cs r0 done todo pl c r,
+  wf_problem vr m0 cs -> unit_premise vr m0 cs r0 -> cs = done ++ todo ->
+  (forall v l, zassoc v pl = Some l -> In (PCLocation v l) cs) ->
+  live m0 c = true ->
+  0 <= capacity m0 c r - reserved done c r - load vr pl c r.
+Proof.
+  intros vr m0 cs r0 done todo pl c r W U Hcs Hfrom Hl.
+  assert (Hrange : ranges_ok cs) by (intros r' s e loc Hin; apply (up_reserve_range _ _ _ _ U r' s e loc Hin)).
+  assert (Hres : reserved done c r <= reserved cs c r).
+  { rewrite Hcs, reserved_app. rewrite Hcs in Hrange. apply ranges_ok_app in Hrange. destruct Hrange as [_ Hr].
+    pose proof (reserved_nonneg todo c r Hr). lia. }
+  pose proof (load_le_located vr cs pl c r (wf_demand_nonneg _ _ _ W) Hfrom) as Hload.
+  destruct (Z.eq_dec r r0) as [Heq | Hne].
+  - subst r. pose proof (up_locations_fit _ _ _ _ U c Hl). lia.
+  - rewrite (located_other_zero vr m0 cs r0 c r U Hne) in Hload.
+    destruct (up_reservations_fit _ _ _ _ U) as [_ Hfit]. specialize (Hfit c r Hl). lia.
+Qed.
+
+Lemma chip_res_nodup : forall vr m cs r0 c, unit_premise vr m cs r0 -> NoDup (map fst (chip_res m c)).
+Proof.
+  intros vr m cs r0 c U. destruct (up_res_nodup _ _ _ _ U) as [H1 H2]. unfold chip_res.
+  destruct (cassoc c (pm_exc m)) as [d|] eqn:E; [apply (H2 c d); apply cassoc_In; exact E | exact H1].
+Qed.
+
+Lemma handle_cs_complete : forall vr m0 cs r0,
+  wf_problem vr m0 cs -> unit_premise vr m0 cs r0 ->
+  forall todo done m pl,
+    cs = done ++ todo -> InvEq vr m0 done m pl ->
+    (forall v l, zassoc v pl = Some l -> In (PCLocation v l) done) ->
+    exists m1 pl1, handle_cs vr todo m pl = Ok (m1, pl1) /\ InvEq vr m0 cs m1 pl1
+                   /\ (forall v l, zassoc v pl1 = Some l -> In (PCLocation v l) cs).
+Proof.
+  intros vr m0 cs r0 W U todo. induction todo as [|k todo IH]; intros done m pl Hcs Hinv Hfrom.
+  - rewrite app_nil_r in Hcs. subst done. exists m, pl. cbn [handle_cs].
+    split; [reflexivity|]. split; [exact Hinv | exact Hfrom].
+  - assert (Hcs' : cs = (done ++ [k]) ++ todo) by (rewrite <- app_assoc; exact Hcs).
+    assert (Hkin : In k cs) by (rewrite Hcs; apply in_app_iff; right; left; reflexivity).
+    assert (Hfrom_cs : forall pl', (forall v l, zassoc v pl' = Some l -> In (PCLocation v l) (done ++ [k])) ->
+                                   forall v l, zassoc v pl' = Some l -> In (PCLocation v l) cs).
+    { intros pl' H v l Hz. rewrite Hcs'. apply in_app_iff. left. apply H. exact Hz. }
+    assert (Hlm : forall c, live m c = live m0 c) by (intros c; apply live_frame; exact (ie_frame _ _ _ _ _ Hinv)).
+    destruct k as [v loc | vs | r s e loc | ]; cbn [handle_cs].
+    + (* location *)
+      assert (Hl0 : live m0 loc = true) by (apply (up_locations_live _ _ _ _ U v loc Hkin)).
+      rewrite Hlm, Hl0. cbn [negb].
+      destruct (zassoc v pl) as [l|] eqn:Ez.
+      * assert (l = loc).
+        { apply (up_locations_once _ _ _ _ U v l loc); [|exact Hkin].
+          rewrite Hcs. apply in_app_iff. left. apply Hfrom. exact Ez. }
+        subst l. rewrite chip_eqb_refl.
+        apply (IH (done ++ [PCLocation v loc]) m pl Hcs').
+        -- apply InvEq_skip; [intros; reflexivity | intros; reflexivity | exact Hinv].
+        -- intros u l Hz. apply in_app_iff. left. apply Hfrom. exact Hz.
+      * assert (Hvk : In v (map fst vr)) by (apply (wf_constr_vertices _ _ _ W _ v Hkin); left; reflexivity).
+        apply zassoc_key_Some in Hvk. destruct Hvk as [d Hd]. rewrite Hd.
+        unfold mget. rewrite Hlm, Hl0.
+        assert (Hlm' : live m loc = true) by (rewrite Hlm; exact Hl0).
+        destruct (mset_live m loc (subtract_resources (chip_res m loc) d) Hlm') as [m1 Hs]. rewrite Hs.
+        assert (Hi1 : InvEq vr m0 (done ++ [PCLocation v loc]) m1 (pl_set v loc pl)).
+        { apply InvEq_skip; [intros; reflexivity | intros; reflexivity|].
+          apply (InvEq_place vr m0 done m pl v d loc m1 (wf_vr_nodup _ _ _ W) Hinv Hd Ez Hl0 Hs). }
+        assert (Hfrom1 : forall u l, zassoc u (pl_set v loc pl) = Some l -> In (PCLocation u l) (done ++ [PCLocation v loc])).
+        { intros u l Hz. unfold pl_set in Hz. rewrite zassoc_zupdate in Hz. apply in_app_iff.
+          destruct (u =? v) eqn:E.
+          - apply Z.eqb_eq in E. subst u. inversion Hz. subst l. right. left. reflexivity.
+          - left. apply Hfrom. exact Hz. }
+        assert (Ho : overallocated (chip_res m1 loc) = false).
+        { apply overallocated_false_intro. apply entries_of_rget.
+          - rewrite (ie_keys _ _ _ _ _ Hi1 loc Hl0). apply (chip_res_nodup vr m0 cs r0 loc U).
+          - intros r Hr. rewrite (ie_keys _ _ _ _ _ Hi1 loc Hl0) in Hr.
+            rewrite (ie_eq _ _ _ _ _ Hi1 loc r Hl0 Hr).
+            apply (room vr m0 cs r0 (done ++ [PCLocation v loc]) todo (pl_set v loc pl) loc r W U Hcs'
+                        (Hfrom_cs _ Hfrom1) Hl0). }
+        rewrite Ho. apply (IH (done ++ [PCLocation v loc]) m1 (pl_set v loc pl) Hcs' Hi1 Hfrom1).
+    + exfalso. apply (up_no_groups _ _ _ _ U vs Hkin).
+    + (* reservation *)
+      destruct (up_reserve_range _ _ _ _ U r s e loc Hkin) as [Hse Hlocl].
+      assert (Hrk : resource_known m0 r) by (apply (wf_reserve_known _ _ _ W r s e loc Hkin)).
+      (* the resources a working chip would have after the reservation are non-negative *)
+      assert (Hchip : forall c d1, live m0 c = true ->
+                        (match loc with None => true | Some c' => chip_eqb c c' end) = true ->
+                        after_reservation (chip_res m c) r (e - s) = Some d1 -> overallocated d1 = false).
+      { intros c d1 Hl Happ Ha. apply after_reservation_spec in Ha. destruct Ha as [Hk1 [_ [Hr1 Hr2]]].
+        apply overallocated_false_intro. apply entries_of_rget.
+        - rewrite Hk1, (ie_keys _ _ _ _ _ Hinv c Hl). apply (chip_res_nodup vr m0 cs r0 c U).
+        - intros r' Hr'. rewrite Hk1, (ie_keys _ _ _ _ _ Hinv c Hl) in Hr'.
+          pose proof (room vr m0 cs r0 (done ++ [PCReserve r s e loc]) todo pl c r' W U Hcs'
+                           (fun u l Hz => eq_ind_r (fun x => In (PCLocation u l) x)
+                                                   (in_or_app _ _ _ (or_introl (Hfrom u l Hz))) Hcs) Hl) as Hroom.
+          rewrite reserved_app in Hroom. cbn [reserved] in Hroom. unfold reserve_applies in Hroom. rewrite Happ in Hroom.
+          pose proof (ie_eq _ _ _ _ _ Hinv c r' Hl Hr') as Heq. unfold capacity in Hroom.
+          destruct (r' =? r) eqn:Er.
+          + apply Z.eqb_eq in Er. subst r'. rewrite Hr1. cbn [andb] in Hroom. lia.
+          + apply Z.eqb_neq in Er. rewrite (Hr2 r' Er). cbn [andb] in Hroom. lia. }
+      assert (Hok : exists m1, apply_reserve m r (e - s) loc = Ok m1).
+      { apply apply_reserve_ok; [exact (ie_exc_nodup _ _ _ _ _ Hinv)|]. destruct loc as [c0|].
+        - assert (Hl0 : live m0 c0 = true) by (apply Hlocl; reflexivity).
+          split; [rewrite Hlm; exact Hl0|].
+          destruct (after_reservation_some (chip_res m c0) r (e - s) (chip_res_known _ _ _ _ _ c0 r Hinv Hrk)) as [d' Hd'].
+          exists d'. split; [exact Hd'|]. apply (Hchip c0 d' Hl0 (chip_eqb_refl c0) Hd').
+        - split.
+          + assert (Hrin : In r (map fst (pm_res m))).
+            { rewrite (ie_res_keys _ _ _ _ _ Hinv). destruct Hrk as [Hrk _]. exact Hrk. }
+            destruct (after_reservation_some (pm_res m) r (e - s) Hrin) as [d' Hd']. exists d'. split; [exact Hd'|].
+            apply after_reservation_spec in Hd'. destruct Hd' as [Hk1 [_ [Hr1 Hr2]]].
+            apply overallocated_false_intro. apply entries_of_rget.
+            * rewrite Hk1, (ie_res_keys _ _ _ _ _ Hinv). destruct (up_res_nodup _ _ _ _ U) as [Hn _]. exact Hn.
+            * intros r' Hr'. rewrite Hk1, (ie_res_keys _ _ _ _ _ Hinv) in Hr'.
+              pose proof (ie_res_eq _ _ _ _ _ Hinv r' Hr') as Heq.
+              destruct (up_reservations_fit _ _ _ _ U) as [Hfit _]. specialize (Hfit r').
+              assert (Hrange : ranges_ok cs) by (intros r1 s1 e1 loc1 Hin; apply (up_reserve_range _ _ _ _ U r1 s1 e1 loc1 Hin)).
+              rewrite Hcs' in Hfit, Hrange. rewrite greserved_app in Hfit. apply ranges_ok_app in Hrange.
+              destruct Hrange as [_ Hrt]. pose proof (greserved_nonneg todo r' Hrt) as Hgn.
+              rewrite greserved_app in Hfit. cbn [greserved] in Hfit.
+              destruct (r' =? r) eqn:Er.
+              -- apply Z.eqb_eq in Er. subst r'. rewrite Hr1. lia.
+              -- apply Z.eqb_neq in Er. rewrite (Hr2 r' Er). lia.
+          + intros c Hc. apply zassoc_key_Some_c in Hc. destruct Hc as [d Hd].
+            assert (Hcr : chip_res m c = d) by (unfold chip_res; rewrite Hd; reflexivity).
+            destruct (after_reservation_some d r (e - s)) as [d1 Hd1].
+            { rewrite <- Hcr. apply (chip_res_known _ _ _ _ _ c r Hinv Hrk). }
+            exists d, d1. split; [exact Hd|]. split; [exact Hd1|].
+            intros Hl. rewrite Hlm in Hl. rewrite <- Hcr in Hd1. apply (Hchip c d1 Hl eq_refl Hd1). }
+      destruct Hok as [m1 Hm1]. rewrite Hm1. cbn [bind].
+      apply (IH (done ++ [PCReserve r s e loc]) m1 pl Hcs').
+      * apply (InvEq_reserve vr m0 done m pl r s e loc m1 Hinv Hm1).
+      * intros u l Hz. apply in_app_iff. left. apply Hfrom. exact Hz.
+    + apply (IH (done ++ [PCOther]) m pl Hcs').
+      * apply InvEq_skip; [intros; reflexivity | intros; reflexivity | exact Hinv].
+      * intros u l Hz. apply in_app_iff. left. apply Hfrom. exact Hz.
+Qed.
+
+(* ---------------------------------------------------------------------------------------------- *)
+(* raster has no repetitions                                                                        *)
+(* ---------------------------------------------------------------------------------------------- *)
+Lemma NoDup_app_intro : forall {A} (a b : list A),
+  NoDup a -> NoDup b -> (forall x, In x a -> ~ In x b) -> NoDup (a ++ b).
+Proof.
+  intros A a b Ha Hb Hd. induction Ha as [|x t Hx Ht IH]; cbn [app]; [exact Hb|].
+  constructor.
+  - rewrite in_app_iff. intros [H | H]; [contradiction | apply (Hd x (or_introl eq_refl) H)].
+  - apply IH. intros y Hy. apply Hd. right. exact Hy.
+Qed.
+
+Lemma zrange_NoDup : forall n, NoDup (zrange n).
+Proof.
+  intros n. unfold zrange. apply FinFun.Injective_map_NoDup; [|apply seq_NoDup].
+  intros a b H. apply Nat2Z.inj. exact H.
+Qed.
+
+Lemma raster_NoDup : forall m, NoDup (raster m).
+Proof.
+  intros m. unfold raster. apply NoDup_filter.
+  generalize (zrange_NoDup (pm_width m)). generalize (zrange (pm_width m)) as xs.
+  induction xs as [|x xs IH]; intros Hnd; cbn [flat_map]; [constructor|].
+  inversion Hnd as [|? ? Hx Hxs]. subst. apply NoDup_app_intro.
+  - apply FinFun.Injective_map_NoDup; [|apply zrange_NoDup]. intros a b H. inversion H. reflexivity.
+  - apply IH. exact Hxs.
+  - intros p Hp Hq. apply in_map_iff in Hp. destruct Hp as [y [Ey _]]. subst p.
+    apply in_flat_map in Hq. destruct Hq as [x' [Hx' Hq]]. apply in_map_iff in Hq. destruct Hq as [y' [Ey' _]].
+    inversion Ey'. subst. contradiction.
+Qed.
+
+Lemma raster_frame : forall m0 m, same_frame m0 m -> raster m = raster m0.
+Proof.
+  intros m0 m Hfr. unfold raster. destruct Hfr as [H1 [H2 H3]]. rewrite H1, H2.
+  apply filter_ext. intros c. unfold live. rewrite H1, H2, H3. reflexivity.
+Qed.
+
+(* ---------------------------------------------------------------------------------------------- *)
+(* Demand still to be placed versus free capacity                                                   *)
+(* ---------------------------------------------------------------------------------------------- *)
+Definition unplaced (r0 : res) (vr : vresources) (pl : placement) : Z :=
+  sumf (fun vd : vertex * resources => if pl_mem (fst vd) pl then 0 else rget r0 (snd vd)) vr.
+
+Definition tfree (r0 : res) (L : list chip) (m : pmachine) : Z :=
+  sumf (fun c => rget r0 (chip_res m c)) L.
+
+Lemma pl_mem_set : forall v c pl u, pl_mem u (pl_set v c pl) = if u =? v then true else pl_mem u pl.
+Proof. intros v c pl u. unfold pl_mem, pl_set. rewrite zassoc_zupdate. destruct (u =? v); reflexivity. Qed.
+
+Lemma unplaced_set_other : forall r0 (vr : vresources) pl v c,
+  ~ In v (map fst vr) -> unplaced r0 vr (pl_set v c pl) = unplaced r0 vr pl.
+Proof.
+  intros r0 vr pl v c H. unfold unplaced. apply sumf_ext. intros [u d] Hin. cbn [fst snd]. rewrite pl_mem_set.
+  destruct (u =? v) eqn:E; [|reflexivity]. apply Z.eqb_eq in E. subst u. exfalso. apply H.
+  apply in_map_iff. exists (v, d). split; [reflexivity | exact Hin].
+Qed.
+
+Lemma unplaced_set : forall r0 (vr : vresources) pl v d c,
+  NoDup (map fst vr) -> zassoc v vr = Some d -> pl_mem v pl = false ->
+  unplaced r0 vr (pl_set v c pl) = unplaced r0 vr pl - rget r0 d.
+Proof.
+  intros r0 vr pl v d c. induction vr as [|[u du] t IH]; intros Hnd Hz Hnew.
+  - cbn [zassoc] in Hz. discriminate.
+  - cbn [map fst] in Hnd. inversion Hnd as [|? ? Hni Hnd']. subst. cbn [zassoc] in Hz.
+    unfold unplaced, sumf in *. cbn [map fold_right fst snd]. rewrite pl_mem_set. destruct (v =? u) eqn:E.
+    + apply Z.eqb_eq in E. subst u. inversion Hz. subst du. rewrite Z.eqb_refl, Hnew.
+      pose proof (unplaced_set_other r0 t pl v c Hni) as Ho. unfold unplaced, sumf in Ho. rewrite Ho. lia.
+    + assert (E' : (u =? v) = false) by (rewrite Z.eqb_sym; exact E). rewrite E'.
+      rewrite (IH Hnd' Hz Hnew). lia.
+Qed.
+
+Lemma unplaced_nonneg : forall r0 (vr : vresources) pl,
+  (forall v d r q, In (v, d) vr -> In (r, q) d -> 0 <= q) -> 0 <= unplaced r0 vr pl.
+Proof.
+  intros r0 vr pl H. unfold unplaced. apply sumf_nonneg. intros [v d] Hin. cbn [fst snd].
+  destruct (pl_mem v pl); [lia|]. apply rget_nonneg_of_entries. intros r q Hq. apply (H v d r q Hin Hq).
+Qed.
+
+Lemma tfree_mset : forall r0 L m c r' m',
+  NoDup L -> In c L -> mset m c r' = Some m' ->
+  tfree r0 L m' = tfree r0 L m - (rget r0 (chip_res m c) - rget r0 r').
+Proof.
+  intros r0 L m c r' m' Hnd Hin Hs. apply mset_spec in Hs. destruct Hs as [_ [_ [_ [_ Hcr]]]].
+  unfold tfree.
+  rewrite (sumf_sub (fun x => rget r0 (chip_res m' x)) (fun x => rget r0 (chip_res m x))
+                    (fun x => if chip_eqb c x then rget r0 (chip_res m c) - rget r0 r' else 0) L).
+  - rewrite (sumf_indicator L c _ Hnd Hin). reflexivity.
+  - intros x _. rewrite Hcr. rewrite (chip_eqb_sym c x). destruct (chip_eqb x c) eqn:E; [|lia].
+    apply chip_eqb_eq in E. subst x. lia.
+Qed.
+
+(* the loads of all chips add up to the demand of the placed vertices *)
+Lemma load_total : forall (vr : vresources) pl r L,
+  NoDup L -> (forall v c, zassoc v pl = Some c -> In c L) ->
+  sumf (fun c => load vr pl c r) L
+  = sumf (fun vd : vertex * resources => if pl_mem (fst vd) pl then rget r (snd vd) else 0) vr.
+Proof.
+  intros vr pl r L Hnd Hin. induction vr as [|[v d] t IH].
+  - unfold load. cbn [map fold_right]. unfold sumf at 2. cbn [map fold_right]. apply sumf_zero. intros; reflexivity.
+  - unfold sumf at 2. cbn [map fold_right fst snd]. fold (sumf (fun vd : vertex * resources => if pl_mem (fst vd) pl then rget r (snd vd) else 0) t).
+    rewrite <- IH.
+    rewrite (sumf_ext (fun c => load ((v, d) :: t) pl c r)
+                      (fun c => (if on_chip pl v c then rget r d else 0) + load t pl c r) L)
+      by (intros c _; reflexivity).
+    rewrite (sumf_plus (fun c => if on_chip pl v c then rget r d else 0) (fun c => load t pl c r) L).
+    f_equal. unfold pl_mem, on_chip. destruct (zassoc v pl) as [c0|] eqn:Ez.
+    + apply (sumf_indicator L c0 (rget r d) Hnd (Hin v c0 Ez)).
+    + apply sumf_zero. intros; reflexivity.
+Qed.
+
+Lemma unplaced_split : forall r0 (vr : vresources) pl,
+  unplaced r0 vr pl + sumf (fun vd : vertex * resources => if pl_mem (fst vd) pl then rget r0 (snd vd) else 0) vr
+  = sumf (fun vd : vertex * resources => rget r0 (snd vd)) vr.
+Proof.
+  intros r0 vr pl. unfold unplaced. rewrite <- sumf_plus. apply sumf_ext. intros [v d] _. cbn [fst snd].
+  destruct (pl_mem v pl); lia.
+Qed.
+
+(* ---------------------------------------------------------------------------------------------- *)
+(* The placement loop cannot fail                                                                   *)
+(* ---------------------------------------------------------------------------------------------- *)
+Record LoopInv (vr : vresources) (m0 : pmachine) (r0 : res) (m : pmachine) (pl : placement) : Prop := {
+  li_frame : same_frame m0 m;
+  li_keys : forall c, live m0 c = true -> map fst (chip_res m c) = map fst (chip_res m0 c);
+  li_nn : forall c r q, live m0 c = true -> In (r, q) (chip_res m c) -> 0 <= q;
+  li_budget : unplaced r0 vr pl <= tfree r0 (raster m0) m }.
+
+Lemma subtract_entries : forall cr d r q', In (r, q') (subtract_resources cr d) ->
+  exists q, In (r, q) cr /\ q' = q - rget r d.
+Proof.
+  intros cr d r q' H. unfold subtract_resources in H. apply in_map_iff in H. destruct H as [[r1 q1] [E Hin]].
+  cbn [fst snd] in E. inversion E. subst. exists q1. split; [exact Hin | reflexivity].
+Qed.
+
+Lemma scan_finds : forall m d last cands passed,
+  (forall x, In x cands -> live m x = true) -> ~ In last cands ->
+  (exists c, In c cands /\ overallocated (subtract_resources (chip_res m c) d) = false) ->
+  exists c r' rest', scan m d last passed cands = Ok (Some (c, r', rest'))
+    /\ live m c = true /\ r' = subtract_resources (chip_res m c) d /\ overallocated r' = false
+    /\ Permutation (passed ++ cands) (c :: rest').
+Proof.
+  intros m d last cands. induction cands as [|x cs IH]; intros passed Hlive Hlast [c [Hc Hfit]].
+  - destruct Hc.
+  - cbn [scan]. assert (Hx : chip_eqb x last = false).
+    { apply chip_eqb_neq. intros E. apply Hlast. left. exact E. }
+    rewrite Hx. unfold try_chip, mget. rewrite (Hlive x (or_introl eq_refl)). cbn [bind].
+    destruct (overallocated (subtract_resources (chip_res m x) d)) eqn:Eo.
+    + destruct (IH (passed ++ [x])) as [c' [r' [rest' [G1 [G2 [G3 [G4 G5]]]]]]].
+      * intros y Hy. apply Hlive. right. exact Hy.
+      * intros H. apply Hlast. right. exact H.
+      * exists c. split; [|exact Hfit]. destruct Hc as [Hc | Hc]; [subst; congruence | exact Hc].
+      * exists c', r', rest'. split; [exact G1|]. split; [exact G2|]. split; [exact G3|]. split; [exact G4|].
+        rewrite <- app_assoc in G5. exact G5.
+    + exists x, (subtract_resources (chip_res m x) d), (cs ++ passed).
+      split; [reflexivity|]. split; [apply Hlive; left; reflexivity|]. split; [reflexivity|]. split; [exact Eo|].
+      apply (Permutation_app_comm passed (x :: cs)).
+Qed.
+
+Lemma LoopInv_place : forall vr m0 cs r0 m pl v d c m',
+  wf_problem vr m0 cs -> LoopInv vr m0 r0 m pl ->
+  zassoc v vr = Some d -> pl_mem v pl = false -> live m0 c = true ->
+  overallocated (subtract_resources (chip_res m c) d) = false ->
+  mset m c (subtract_resources (chip_res m c) d) = Some m' ->
+  LoopInv vr m0 r0 m' (pl_set v c pl).
+Proof.
+  intros vr m0 cs r0 m pl v d c m' W [Hfr Hk Hnn Hb] Hz Hnew Hl Hov Hs.
+  pose proof (mset_spec _ _ _ _ Hs) as [Hfr' [_ [_ [_ Hcr]]]].
+  constructor.
+  - eapply same_frame_trans; eassumption.
+  - intros c' Hl'. rewrite Hcr. destruct (chip_eqb c' c) eqn:E.
+    + apply chip_eqb_eq in E. subst c'. rewrite subtract_keys. apply Hk. exact Hl.
+    + apply Hk. exact Hl'.
+  - intros c' r q Hl' Hin. rewrite Hcr in Hin. destruct (chip_eqb c' c).
+    + apply (overallocated_false _ Hov r q Hin).
+    + apply (Hnn c' r q Hl' Hin).
+  - rewrite (unplaced_set r0 vr pl v d c (wf_vr_nodup _ _ _ W) Hz Hnew).
+    rewrite (tfree_mset r0 (raster m0) m c _ m' (raster_NoDup m0) (proj2 (raster_In m0 c) Hl) Hs).
+    assert (Hx : rget r0 (chip_res m c) - rget r0 (subtract_resources (chip_res m c) d) = rget r0 d).
+    { destruct (in_dec Z.eq_dec r0 (map fst (chip_res m c))) as [Hin | Hni].
+      - rewrite (rget_subtract _ _ _ Hin). lia.
+      - rewrite (rget_notin r0 (chip_res m c) Hni).
+        rewrite (rget_notin r0 (subtract_resources (chip_res m c) d)) by (rewrite subtract_keys; exact Hni).
+        unfold rget. destruct (zassoc r0 d) as [q|] eqn:E; [|reflexivity].
+        exfalso. apply Hni. rewrite (Hk c Hl). apply resource_known_chip.
+        apply (wf_demand_known _ _ _ W v d r0 q); [apply zassoc_In; exact Hz | apply zassoc_In; exact E]. }
+    lia.
+Qed.
+
+Lemma place_loop_complete : forall vr m0 cs r0,
+  wf_problem vr m0 cs -> unit_premise vr m0 cs r0 ->
+  forall vs m pl cur rest,
+    LoopInv vr m0 r0 m pl -> NoDup (cur :: rest) ->
+    (forall c, In c (cur :: rest) <-> live m0 c = true) ->
+    (forall v, In v vs -> In v (map fst vr)) ->
+    exists pl', place_loop vr vs m pl cur rest = Ok pl'.
+Proof.
+  intros vr m0 cs r0 W U vs. induction vs as [|v vs IH]; intros m pl cur rest Hinv Hnd Hall Hvs.
+  - exists pl. reflexivity.
+  - cbn [place_loop]. assert (Hvs' : forall u, In u vs -> In u (map fst vr)) by (intros u Hu; apply Hvs; right; exact Hu).
+    destruct (pl_mem v pl) eqn:Em; [apply IH; assumption|].
+    destruct (zassoc_key_Some v vr (Hvs v (or_introl eq_refl))) as [d Hd]. rewrite Hd.
+    assert (Hdin : In (v, d) vr) by (apply zassoc_In; exact Hd).
+    assert (Hlm : forall c, live m c = live m0 c) by (intros c; apply live_frame; exact (li_frame _ _ _ _ _ Hinv)).
+    assert (Hcur : live m0 cur = true) by (apply Hall; left; reflexivity).
+    unfold try_chip at 1. unfold mget. rewrite Hlm, Hcur. cbn [bind].
+    destruct (overallocated (subtract_resources (chip_res m cur) d)) eqn:Eo.
+    + (* the current chip is full: some other chip has room *)
+      assert (Hone : rget r0 d = 1).
+      { destruct (rget_unit vr m0 cs r0 v d U Hdin) as [Hz | Ho]; [|exact Ho]. exfalso.
+        assert (Hf : overallocated (subtract_resources (chip_res m cur) d) = false).
+        { apply overallocated_false_intro. intros r q' Hin. apply subtract_entries in Hin. destruct Hin as [q [Hq Eq]].
+          assert (rget r d = 0).
+          { destruct (Z.eq_dec r r0) as [E | E]; [subst; exact Hz | apply (rget_other_zero vr m0 cs r0 v d r U Hdin E)]. }
+          pose proof (li_nn _ _ _ _ _ Hinv cur r q Hcur Hq). lia. }
+        congruence. }
+      assert (Hpos : 0 < tfree r0 (raster m0) m).
+      { pose proof (li_budget _ _ _ _ _ Hinv) as Hb.
+        pose proof (unplaced_set r0 vr pl v d cur (wf_vr_nodup _ _ _ W) Hd Em) as Hu.
+        pose proof (unplaced_nonneg r0 vr (pl_set v cur pl) (wf_demand_nonneg _ _ _ W)). lia. }
+      apply sumf_exists_pos in Hpos. destruct Hpos as [c [Hc Hgc]]. apply raster_In in Hc.
+      assert (Hfit : overallocated (subtract_resources (chip_res m c) d) = false).
+      { apply overallocated_false_intro. intros r q' Hin. apply subtract_entries in Hin. destruct Hin as [q [Hq Eq]].
+        pose proof (li_nn _ _ _ _ _ Hinv c r q Hc Hq) as Hqn.
+        destruct (Z.eq_dec r r0) as [E | E].
+        - subst r. assert (Hqq : rget r0 (chip_res m c) = q).
+          { unfold rget. rewrite (zassoc_NoDup_In r0 q (chip_res m c)); [reflexivity | | exact Hq].
+            exact (eq_ind_r (fun l => NoDup l) (chip_res_nodup vr m0 cs r0 c U) (li_keys _ _ _ _ _ Hinv c Hc)). }
+          lia.
+        - rewrite (rget_other_zero vr m0 cs r0 v d r U Hdin E) in Eq. lia. }
+      assert (Hcrest : In c rest).
+      { assert (Hin : In c (cur :: rest)) by (apply Hall; exact Hc). destruct Hin as [Hin | Hin]; [subst; congruence | exact Hin]. }
+      inversion Hnd as [|? ? Hcur_ni Hnd_rest]. subst.
+      destruct (scan_finds m d cur rest [cur]) as [c' [r' [rest' [G1 [G2 [G3 [G4 G5]]]]]]].
+      * intros x Hx. rewrite Hlm. apply Hall. right. exact Hx.
+      * exact Hcur_ni.
+      * exists c. split; [exact Hcrest | exact Hfit].
+      * rewrite G1. cbn [bind]. cbn [app] in G5. rewrite Hlm in G2.
+        assert (G2' : live m c' = true) by (rewrite Hlm; exact G2).
+        destruct (mset_live m c' r' G2') as [m1 Hs]. rewrite Hs. subst r'.
+        apply (IH m1 (pl_set v c' pl) c' rest').
+        -- apply (LoopInv_place vr m0 cs r0 m pl v d c' m1 W Hinv Hd Em G2 G4 Hs).
+        -- apply (Permutation_NoDup G5). exact Hnd.
+        -- intros x. rewrite <- Hall. split; intros Hx; [apply (Permutation_in x (Permutation_sym G5) Hx) | apply (Permutation_in x G5 Hx)].
+        -- exact Hvs'.
+    + assert (Hcur' : live m cur = true) by (rewrite Hlm; exact Hcur).
+      destruct (mset_live m cur (subtract_resources (chip_res m cur) d) Hcur') as [m1 Hs]. rewrite Hs.
+      apply (IH m1 (pl_set v cur pl) cur rest).
+      * apply (LoopInv_place vr m0 cs r0 m pl v d cur m1 W Hinv Hd Em Hcur Eo Hs).
+      * exact Hnd.
+      * exact Hall.
+      * exact Hvs'.
+Qed.
+
+(* ---------------------------------------------------------------------------------------------- *)
+(* seq_place succeeds under the premise                                                             *)
+(* ---------------------------------------------------------------------------------------------- *)
+Lemma LoopInv_after_constraints : forall vr m cs r0 m1 pl0,
+  wf_problem vr m cs -> unit_premise vr m cs r0 ->
+  InvEq vr m cs m1 pl0 -> (forall v l, zassoc v pl0 = Some l -> In (PCLocation v l) cs) ->
+  LoopInv vr m r0 m1 pl0.
+Proof.
+  intros vr m cs r0 m1 pl0 W U Hinv Hfrom.
+  assert (Hcs : cs = cs ++ []) by (rewrite app_nil_r; reflexivity).
+  assert (Hnn : forall c r q, live m c = true -> In (r, q) (chip_res m1 c) -> 0 <= q).
+  { intros c r q Hl Hin. revert r q Hin. apply entries_of_rget.
+    - exact (eq_ind_r (fun l => NoDup l) (chip_res_nodup vr m cs r0 c U) (ie_keys _ _ _ _ _ Hinv c Hl)).
+    - intros r Hr. assert (Hr0 : In r (map fst (chip_res m c))).
+      { exact (eq_ind (map fst (chip_res m1 c)) (fun l => In r l) Hr _ (ie_keys _ _ _ _ _ Hinv c Hl)). }
+      rewrite (ie_eq _ _ _ _ _ Hinv c r Hl Hr0).
+      apply (room vr m cs r0 cs [] pl0 c r W U Hcs Hfrom Hl). }
+  constructor.
+  - exact (ie_frame _ _ _ _ _ Hinv).
+  - exact (ie_keys _ _ _ _ _ Hinv).
+  - exact Hnn.
+  - pose proof (unplaced_split r0 vr pl0) as Hsplit.
+    assert (Hplaced_nn : 0 <= sumf (fun vd : vertex * resources => if pl_mem (fst vd) pl0 then rget r0 (snd vd) else 0) vr).
+    { apply sumf_nonneg. intros [v d] Hin. cbn [fst snd]. destruct (pl_mem v pl0); [|lia].
+      apply rget_nonneg_of_entries. intros r q Hq. apply (wf_demand_nonneg _ _ _ W v d r q Hin Hq). }
+    assert (Htf_nn : 0 <= tfree r0 (raster m) m1).
+    { unfold tfree. apply sumf_nonneg. intros c Hc. apply raster_In in Hc.
+      apply rget_nonneg_of_entries. intros r q Hq. apply (Hnn c r q Hc Hq). }
+    destruct (Z_le_gt_dec (sumf (fun vd : vertex * resources => rget r0 (snd vd)) vr) 0) as [Hz | Hp].
+    + lia.
+    + assert (Hp' : 0 < sumf (fun vd : vertex * resources => rget r0 (snd vd)) vr) by lia.
+      apply sumf_exists_pos in Hp'. destruct Hp' as [[v d] [Hvd Hpos]]. cbn [snd] in Hpos.
+      assert (Hkn : resource_known m r0).
+      { unfold rget in Hpos. destruct (zassoc r0 d) as [q|] eqn:E; [|lia].
+        apply (wf_demand_known _ _ _ W v d r0 q Hvd). apply zassoc_In. exact E. }
+      pose proof (up_total _ _ _ _ U) as Htot.
+      fold (sumf (fun vd : vertex * resources => rget r0 (snd vd)) vr) in Htot.
+      fold (sumf (fun c => capacity m c r0 - reserved cs c r0) (raster m)) in Htot.
+      assert (Htf : tfree r0 (raster m) m1
+                    = sumf (fun c => capacity m c r0 - reserved cs c r0) (raster m)
+                      - sumf (fun c => load vr pl0 c r0) (raster m)).
+      { unfold tfree. apply sumf_sub. intros c Hc. apply raster_In in Hc.
+        rewrite (ie_eq _ _ _ _ _ Hinv c r0 Hc (resource_known_chip m r0 c Hkn)). reflexivity. }
+      rewrite (load_total vr pl0 r0 (raster m) (raster_NoDup m)) in Htf.
+      * lia.
+      * intros u l Hz. apply raster_In. apply (up_locations_live _ _ _ _ U u l). apply Hfrom. exact Hz.
+Qed.
+
+Theorem seq_place_complete : forall vr m cs r0 vorder corder,
+  wf_problem vr m cs -> unit_premise vr m cs r0 ->
+  (forall vo, vorder = Some vo -> vertex_order_ok vr vo) ->
+  (forall co, corder = Some co -> chip_order_ok m co) ->
+  exists pl, seq_place vr m cs vorder corder = Ok pl.
+Proof.
+  intros vr m cs r0 vorder corder W U Hvo Hco. unfold seq_place.
+  destruct (length vr =? 0)%nat eqn:Elen; [exists []; reflexivity|].
+  assert (Hvrne : vr <> []) by (intros E; subst vr; cbn in Elen; discriminate).
+  unfold apply_same_chip. rewrite (apply_sc_none cs [] vr [] (up_no_groups _ _ _ _ U)). cbn [app bind].
+  destruct (handle_cs_complete vr m cs r0 W U cs [] m [] eq_refl (InvEq_init vr m (wf_exc_nodup _ _ _ W)))
+    as [m1 [pl0 [Hh [Hinv Hfrom]]]].
+  { intros v l Hz. discriminate. }
+  rewrite Hh. cbn [bind].
+  pose proof (LoopInv_after_constraints vr m cs r0 m1 pl0 W U Hinv Hfrom) as Hloop.
+  assert (Hlm : forall c, live m1 c = live m c) by (intros c; apply live_frame; exact (ie_frame _ _ _ _ _ Hinv)).
+  set (vo1 := match vorder with Some vo => vo | None => map fst vr end).
+  assert (Hvo1 : (match vorder with Some vo => subst_order [] vo | None => Ok (map fst vr) end) = Ok vo1).
+  { unfold vo1. destruct vorder; reflexivity. }
+  rewrite Hvo1. cbn [bind].
+  assert (Hvs : forall v, In v vo1 -> In v (map fst vr)).
+  { unfold vo1. destruct vorder as [vo|]; [|intros v Hv; exact Hv]. intros v Hv. apply (Hvo vo eq_refl). exact Hv. }
+  set (chips := filter (live m1) (match corder with Some co => co | None => raster m1 end)).
+  assert (Hchips : NoDup chips /\ forall c, In c chips <-> live m c = true).
+  { unfold chips. destruct corder as [co|].
+    - destruct (Hco co eq_refl) as [Hnd Hall].
+      rewrite (filter_ext (live m1) (live m) Hlm). split; [exact Hnd|].
+      intros c. rewrite filter_In. split; [tauto|]. intros Hl. split; [apply Hall; exact Hl | exact Hl].
+    - rewrite (raster_frame m m1 (ie_frame _ _ _ _ _ Hinv)). split.
+      + apply NoDup_filter. apply raster_NoDup.
+      + intros c. rewrite filter_In, raster_In, Hlm. tauto. }
+  destruct Hchips as [Hnd Hall].
+  destruct chips as [|c0 crest] eqn:Ec.
+  - exfalso. destruct (up_some_chip _ _ _ _ U Hvrne) as [c Hc]. apply Hall in Hc. destruct Hc.
+  - destruct (place_loop_complete vr m cs r0 W U vo1 m1 pl0 c0 crest Hloop Hnd Hall Hvs) as [pl1 Hpl1].
+    rewrite Hpl1. cbn [bind rev finalise]. exists pl1. reflexivity.
+Qed.
+
+(* ---------------------------------------------------------------------------------------------- *)
+(* The premise is satisfiable                                                                       *)
+(* ---------------------------------------------------------------------------------------------- *)
+Definition exc_vr : vresources := [(1, [(0, 1)]); (2, [(0, 1)]); (3, [])].
+Definition exc_m : pmachine :=
+  {| pm_width := 2; pm_height := 1; pm_res := [(0, 2)]; pm_exc := []; pm_dead := [] |}.
+Definition exc_cs : list pconstr := [PCLocation 1 (1, 0); PCReserve 0 0 1 None].
+
+Ltac in_cases :=
+  repeat match goal with
+         | H : In _ (_ :: _) |- _ => destruct H as [H | H]
+         | H : In _ [] |- _ => destruct H
+         | H : _ \/ _ |- _ => destruct H as [H | H]
+         | H : False |- _ => destruct H
+         | H : (_, _) = (_, _) |- _ => inversion H; clear H; subst
+         | H : PCLocation _ _ = _ |- _ => inversion H; clear H; subst
+         | H : PCSameChip _ = _ |- _ => inversion H; clear H; subst
+         | H : PCReserve _ _ _ _ = _ |- _ => inversion H; clear H; subst
+         | H : Some _ = Some _ |- _ => inversion H; clear H; subst
+         end.
+
+Lemma exc_known : resource_known exc_m 0.
+Proof. split; [left; reflexivity|]. intros c d H. destruct H. Qed.
+
+Lemma exc_wf : wf_problem exc_vr exc_m exc_cs.
+Proof.
+  constructor.
+  - cbn. repeat constructor; cbn; intuition discriminate.
+  - intros v H. cbn in H. intuition lia.
+  - intros v d H. unfold exc_vr in H. in_cases; cbn; repeat constructor; cbn; intuition.
+  - intros v d r q H Hq. unfold exc_vr in H. in_cases; lia.
+  - intros v d r q H Hq. unfold exc_vr in H. in_cases; exact exc_known.
+  - cbn. constructor.
+  - split; [intros r q H; cbn in H; in_cases; lia | intros c d r q H; destruct H].
+  - intros k v H Hv. unfold exc_cs in H. in_cases; cbn in Hv; in_cases; cbn; tauto.
+  - intros r s e loc H. unfold exc_cs in H. in_cases. exact exc_known.
+Qed.
+
+Lemma exc_live : forall c, live exc_m c = true -> c = (0, 0) \/ c = (1, 0).
+Proof.
+  intros c H. apply raster_In in H.
+  assert (E : raster exc_m = [(0, 0); (1, 0)]) by (vm_compute; reflexivity).
+  rewrite E in H. destruct H as [H | [H | []]]; [left | right]; symmetry; exact H.
+Qed.
+
+Lemma exc_reserved : forall c r, reserved exc_cs c r = if r =? 0 then 1 else 0.
+Proof.
+  intros c r. unfold exc_cs. cbn [reserved]. unfold reserve_applies. destruct (r =? 0); reflexivity.
+Qed.
+
+Lemma exc_capacity : forall c r, capacity exc_m c r = if r =? 0 then 2 else 0.
+Proof.
+  intros c r. unfold capacity, chip_res. cbn [exc_m pm_exc cassoc pm_res]. unfold rget. cbn [zassoc].
+  destruct (r =? 0); reflexivity.
+Qed.
+
+Lemma exc_premise : unit_premise exc_vr exc_m exc_cs 0.
+Proof.
+  constructor.
+  - intros v d r q H Hq. unfold exc_vr in H. in_cases; left; split; auto.
+  - intros vs H. unfold exc_cs in H. in_cases.
+  - intros _. exists (0, 0). reflexivity.
+  - split; [cbn; repeat constructor; cbn; intuition | intros c d H; destruct H].
+  - intros r s e loc H. unfold exc_cs in H. in_cases. split; [lia | intros c Hc; discriminate].
+  - split.
+    + intros r. cbn. unfold rget. cbn. destruct (r =? 0); lia.
+    + intros c r Hl. rewrite exc_capacity, exc_reserved. destruct (r =? 0); lia.
+  - intros v c H. unfold exc_cs in H. in_cases. reflexivity.
+  - intros v c c' H H'. unfold exc_cs in H, H'. in_cases. reflexivity.
+  - intros c Hl. apply exc_live in Hl. destruct Hl; subst c; vm_compute; discriminate.
+  - vm_compute. discriminate.
+Qed.
+
+Lemma exc_instance :
+  wf_problem exc_vr exc_m exc_cs /\ unit_premise exc_vr exc_m exc_cs 0
+  /\ vertex_order_ok exc_vr [3; 1; 2] /\ chip_order_ok exc_m [(1, 0); (5, 5); (0, 0)]
+  /\ seq_place exc_vr exc_m exc_cs (Some [3; 1; 2]) (Some [(1, 0); (5, 5); (0, 0)])
+     = Ok [(1, (1, 0)); (3, (1, 0)); (2, (0, 0))].
+Proof.
+  split; [exact exc_wf|]. split; [exact exc_premise|]. split; [|split].
+  - intros v. cbn. intuition.
+  - split.
+    + vm_compute. repeat constructor; cbn; intuition discriminate.
+    + intros c Hl. apply exc_live in Hl. destruct Hl; subst c; cbn; tauto.
+  - vm_compute. reflexivity.
+Qed.
